@@ -390,13 +390,13 @@ QXmppTask<void> QXmppAtmManager::authenticate(const QString &encryption, const Q
             if (securityPolicy == Toakafa) {
                 auto future = distrustAutomaticallyTrustedKeys(encryption, keyIds.uniqueKeys());
                 future.then(this, [=, this]() mutable {
-                    auto future = makePostponedTrustDecisions(encryption, keyIds.values());
+                    auto future = makePostponedTrustDecisions(encryption, keyIds.values(), keyIds.uniqueKeys());
                     future.then(this, [=, this]() mutable {
                         promise.finish();
                     });
                 });
             } else {
-                auto future = makePostponedTrustDecisions(encryption, keyIds.values());
+                auto future = makePostponedTrustDecisions(encryption, keyIds.values(), keyIds.uniqueKeys());
                 future.then(this, [=, this]() mutable {
                     promise.finish();
                 });
@@ -451,18 +451,41 @@ QXmppTask<void> QXmppAtmManager::distrustAutomaticallyTrustedKeys(const QString 
 /// As soon as the senders' keys have been authenticated, all postponed trust
 /// decisions can be performed by this method.
 ///
+/// The postponed trust decisions are stored by the ID of the sender's key only.
+/// Thus, the rule applied to received trust messages is applied again with the
+/// accounts the senders' keys have been authenticated for:
+/// An own endpoint is allowed to make trust decisions for all keys whereas an
+/// endpoint of a contact is only allowed to make them for that contact's keys.
+///
 /// \param encryption encryption protocol namespace
 /// \param senderKeyIds IDs of the keys that were used by the senders
+/// \param senderJids bare JIDs of the accounts the senders' keys have been
+///        authenticated for (if empty, all postponed trust decisions are made)
 ///
-QXmppTask<void> QXmppAtmManager::makePostponedTrustDecisions(const QString &encryption, const QList<QByteArray> &senderKeyIds)
+QXmppTask<void> QXmppAtmManager::makePostponedTrustDecisions(const QString &encryption, const QList<QByteArray> &senderKeyIds, const QList<QString> &senderJids)
 {
     QXmppPromise<void> promise;
 
     auto future = trustStorage()->keysForPostponedTrustDecisions(encryption, senderKeyIds);
     future.then(this, [=, this](const QHash<bool, QMultiHash<QString, QByteArray>> &&keysForPostponedTrustDecisions) mutable {
         // JIDs of key owners mapped to the IDs of their keys
-        const auto keysBeingAuthenticated = keysForPostponedTrustDecisions.value(true);
-        const auto keysBeingDistrusted = keysForPostponedTrustDecisions.value(false);
+        auto keysBeingAuthenticated = keysForPostponedTrustDecisions.value(true);
+        auto keysBeingDistrusted = keysForPostponedTrustDecisions.value(false);
+
+        if (!senderJids.isEmpty() && !senderJids.contains(client()->configuration().jidBare())) {
+            const auto removeUnqualifiedKeys = [&senderJids](QMultiHash<QString, QByteArray> &keys) {
+                for (auto itr = keys.begin(); itr != keys.end();) {
+                    if (senderJids.contains(itr.key())) {
+                        ++itr;
+                    } else {
+                        itr = keys.erase(itr);
+                    }
+                }
+            };
+
+            removeUnqualifiedKeys(keysBeingAuthenticated);
+            removeUnqualifiedKeys(keysBeingDistrusted);
+        }
 
         auto future = trustStorage()->removeKeysForPostponedTrustDecisions(encryption, keysBeingAuthenticated.values(), keysBeingDistrusted.values());
         future.then(this, [=, this]() mutable {
